@@ -184,8 +184,38 @@ func node(g *cur, depth, id int) (res int) {
 	nd := g.next() % 4
 	counter := id * 100
 	for j := 0; j < nd; j++ {
-		kind := g.next() % 17
+		kind := g.next() % 19
 		switch kind {
+		case 17:
+			// recover reached through a closure variable called BY a deferred
+			// literal: one call too deep, it must not stop the panic (a deferred
+			// literal registered before it does). Self-contained: the activation
+			// goes on normally afterwards.
+			func() {
+				defer func() {
+					r := recover()
+					g.emit("d-indirect-net " + strconv.Itoa(id) + " " + Classify(r))
+				}()
+				rec := func() {
+					r := recover()
+					g.emit("d-indirect-recover " + strconv.Itoa(id) + " " + Classify(r))
+				}
+				defer func() { rec() }()
+				panic("boomind" + strconv.Itoa(id))
+			}()
+		case 18:
+			// probe: a closure variable that recovers, deferred directly: it IS the
+			// deferred function and must stop the panic. Self-contained, with a
+			// safety net, so that the listed finding does not disturb the rest.
+			func() {
+				defer func() { _ = recover() }()
+				recv := func() {
+					r := recover()
+					g.emit("d-closure-recover " + strconv.Itoa(id) + " " + Classify(r))
+				}
+				defer recv()
+				panic("boomclo" + strconv.Itoa(id))
+			}()
 		case 15:
 			// the function value of a defer statement is fixed at the statement
 			defer mkDeferred(g, id, j)()
